@@ -94,8 +94,14 @@ def generate(ctx):
     cases = list(_cases(ctx))
     exprs = []
     for r, a in cases:
-        if r in EXPRS: exprs += EXPRS[r](a)
-    _run_coq(ctx, [e for e in dict.fromkeys(exprs) if e not in _cache])
+        try:
+            if r in EXPRS: exprs += EXPRS[r](a)
+        except Exception:
+            pass      # the implementation raised while building the scale: reported by the runner itself
+    try:
+        _run_coq(ctx, [e for e in dict.fromkeys(exprs) if e not in _cache])
+    except Exception as e:
+        ctx.notes.append('batched coqc evaluation failed: %r' % e)
     for c in cases:
         yield c
 
@@ -136,6 +142,11 @@ def _cases(ctx):
         big = sorted({int(x) for x in rng.integers(-2 ** 40, 2 ** 40, size=600 if quick else 6000)} |
                      {int(2 ** k + d) for k in range(10, 41) for d in (-1, 0, 1)})
         yield 'td_trace', {'scale': nm, 's': list(range(0, 300)) + [27, 29, 54, 58, 108, 116, 119, 127] + big}
+    for nm in tnames + [rand_T]:
+        fr = [0.0004, 0.0005, 0.0006, 0.4994, 0.4995, 0.5, 0.5005, 0.9994, 0.99949, 0.9995, 0.99951, 0.9996, 0.99999999]
+        secs = [sg * (k + f) for k in (0, 1, 26, 27, 3599, 86400, int(rng.integers(2, 10 ** 9))) for f in fr for sg in (1, -1)]
+        secs += [float(x) for x in rng.uniform(-1e6, 1e6, size=100 if quick else 2000)]
+        yield 'td_dim', {'scale': nm, 'secs': secs}
     yield 'td_dense', {'scale': rand_T, 'a': 0, 'n': 20000 if quick else 200000}
     yield 'td_trace', {'scale': rand_T, 's': [int(x) for x in rng.integers(-2 ** 40, 2 ** 40, size=500 if quick else 5000)]}
     # implementation-only sweep (the property's clause) over a long dense range
@@ -391,8 +402,15 @@ def _e_td_dense(a): return ['deviations (td_roundtrip %s) (zrange (%d)%%Z 1%%Z (
 def _e_td_trace(a): return ['map (td_trace %s) %s' % (_hexlit(_specs(a['scale'])[2]), _zl(a['s']))]
 def _e_dt_trace(a): return ['map (dt_trace %s) %s' % (_hexlit(_specs(a['scale'])[2]), _zl(a['M']))]
 def _e_dt_dense(a): return ['deviations (dt_roundtrip %s) (zrange (%d)%%Z 1%%Z (N.to_nat %d%%N))' % (_hexlit(_specs(a['scale'])[2]), a['a'], a['n'])]
+def _fl(l): return '(' + ' :: '.join(_hexlit(v) for v in l) + ' :: nil)'
+def _nd_values(a):
+    T = _specs(a['scale'])[2]
+    return [float(np.float64(x) / np.float64(T)) for x in a['secs']]
+def _e_td_dim(a):
+    T = _specs(a['scale'])[2]; v = _nd_values(a)
+    return ['map (dim_td %s) %s' % (_hexlit(T), _fl(v)), 'map (fun v => dim_dt %s (v * 60)%%float) %s' % (_hexlit(T), _fl(v))]
 def _e_time_axis(a): return ['map (nondim_td %s) %s' % (_hexlit(_specs(a['scale'])[2]), _zl(a['steps']))]
-EXPRS = {'td_dense': _e_td_dense, 'td_trace': _e_td_trace, 'dt_trace': _e_dt_trace, 'dt_dense': _e_dt_dense, 'time_axis': _e_time_axis}
+EXPRS = {'td_dim': _e_td_dim, 'td_dense': _e_td_dense, 'td_trace': _e_td_trace, 'dt_trace': _e_dt_trace, 'dt_dense': _e_dt_dense, 'time_axis': _e_time_axis}
 
 
 def _td_impl(specs, arr_s):
@@ -439,6 +457,24 @@ def r_td_trace(ctx, a):
     _bits_equal('millisecond snap (numpy re-evaluation of the source expression) bit-exact', ctx, snapped, res[2::4])
     ctx.exact('dimensionalize_timedelta64 result', [int(x) for x in back], [int(x) for x in res[3::4]])
     ctx.count('td:trace', len(s))
+
+
+def r_td_dim(ctx, a):
+    """dimensionalize_timedelta64 / nondim_time_to_datetime64 on arbitrary non-dimensional
+    values (not only images of whole seconds): snapping and rounding behaviour next to
+    the boundaries."""
+    xu = J()[2]
+    specs, S, T = _specs(a['scale'])
+    v = np.asarray(_nd_values(a), dtype=np.float64)
+    got = specs.dimensionalize_timedelta64(v).astype(np.int64)
+    got_scalar = [int(specs.dimensionalize_timedelta64(np.float64(x)) / np.timedelta64(1, 's')) for x in v[:40]]
+    ctx.exact('scalar and array code paths agree', [int(x) for x in got[:40]], got_scalar)
+    ref = np.datetime64('2000-01-01T00:00', 'm')
+    mins = ((xu.nondim_time_to_datetime64(v * 60.0, specs, ref) - ref) / np.timedelta64(1, 'm')).astype(np.int64)
+    res = coq_eval(ctx, _e_td_dim(a))
+    ctx.exact('dimensionalize_timedelta64 on arbitrary values', [int(x) for x in got], res[0])
+    ctx.exact('nondim_time_to_datetime64 on arbitrary values', [int(x) for x in mins], res[1])
+    ctx.count('td:dim', len(v))
 
 
 def r_td_oracle(ctx, a):
@@ -626,6 +662,6 @@ def r_calendar_phase(ctx, a):
         ctx.exact('datetime64_to_datetime', d64.isoformat(), d.isoformat())
 
 
-RUNNERS = {'units': r_units, 'td_dense': r_td_dense, 'td_trace': r_td_trace, 'td_oracle': r_td_oracle,
+RUNNERS = {'units': r_units, 'td_dim': r_td_dim, 'td_dense': r_td_dense, 'td_trace': r_td_trace, 'td_oracle': r_td_oracle,
            'dt_trace': r_dt_trace, 'dt_dense': r_dt_dense, 'dt_oracle': r_dt_oracle, 'time_axis': r_time_axis,
            'phase': r_phase, 'calendar_phase': r_calendar_phase}
